@@ -440,6 +440,18 @@ class EOperation(ETypedElement):
             name = name + '_'
         return name
 
+    def notifyChanged(self, notif):
+        super().notifyChanged(notif)
+        # parameters may come after the operation joined its class (a loader
+        # attaches the operation first): the generated method follows them
+        if notif.feature is EOperation.eParameters:
+            self._refresh_method()
+
+    def _refresh_method(self):
+        eclass = self.eContainer()
+        if isinstance(eclass, EClass) and self in eclass.eOperations:
+            eclass._refresh_operation(self)
+
     def to_code(self):
         parameters = [x.to_code() for x in self.eParameters]
         if len(parameters) == 0 or parameters[0] != 'self':
@@ -456,6 +468,12 @@ class EParameter(ETypedElement):
     def __init__(self, name=None, eType=None, **kwargs):
         super().__init__(name, eType, **kwargs)
 
+    def notifyChanged(self, notif):
+        super().notifyChanged(notif)
+        operation = self.eContainer()
+        if isinstance(operation, EOperation):
+            operation._refresh_method()
+
     def to_code(self):
         if self.required:
             return f"{self.name}"
@@ -466,7 +484,14 @@ class EParameter(ETypedElement):
         return f"{self.name}={default_value!r}"
 
     def default_value(self):
-        return getattr(self.eType, 'default_value', None)
+        etype = self.eType
+        if isinstance(etype, EProxy) and not etype.resolved:
+            # a type that cannot be reached (yet) says nothing about a default
+            try:
+                etype.force_resolve()
+            except Exception:
+                return None
+        return getattr(etype, 'default_value', None)
 
 
 class ETypeParameter(ENamedElement):
@@ -943,7 +968,17 @@ class EClass(EClassifier):
             fun.__defaults__ = tuple(x.default_value()
                                      for x in eoperation.eParameters
                                      if not x.required)
+        fun._generated_stub = True
         setattr(self.python_class, name, fun)
+
+    def _refresh_operation(self, eoperation):
+        # the declaration changed (parameters added, renamed, retyped): the
+        # generated method is written again, a behavior given by the user stays
+        if getattr(self.python_class, '_staticEClass', False):
+            return
+        current = self.python_class.__dict__.get(eoperation.normalized_name())
+        if getattr(current, '_generated_stub', False):
+            self.__create_fun(eoperation)
 
     def _update_supertypes(self):
         new_supers = self.__compute_supertypes()
